@@ -21,8 +21,8 @@ S8q  == {0 - 128, 0 - 127, 0 - 126, 0 - 100, 0 - 1, 0, 1, 2, 100, 126, 127}
 S8qs == S8q \cup {0 - 2, 3}
 U8q  == {0, 1, 2, 5, 100, 127, 128, 200, 250, 254, 255}
 U8qs == U8q \cup {3, 253}
-S8t  == S8q \cup {0 - 125, 0 - 64, 0 - 63, 0 - 17, 0 - 7, 0 - 5, 0 - 3, 0 - 2, 3, 5, 7, 17, 63, 64, 85, 124, 125}
+S8t  == S8q \cup {0 - 125, 0 - 64, 0 - 17, 0 - 3, 0 - 2, 3, 7, 17, 64, 125}
 S8ts == S8t
-U8t  == U8q \cup {3, 4, 7, 15, 16, 17, 51, 63, 64, 85, 126, 129, 199, 251, 252, 253}
+U8t  == U8q \cup {3, 4, 16, 17, 51, 85, 129, 251, 253}
 U8ts == U8t
 =============================================================================
